@@ -86,7 +86,16 @@ type GhostDecl struct {
 	Init string
 }
 
+type PkgInit struct {
+	Pkg  string
+	Name string
+	Src  string
+	Expr ast.Expr
+	File string
+}
+
 type ContractSet struct {
+	PkgInits []*PkgInit
 	ByKey  map[string]*Contract
 	Ghosts []GhostDecl
 	Files  []string
@@ -280,6 +289,15 @@ func (cs *ContractSet) loadFile(path string, pkgPath string) error {
 			cs.Order = append(cs.Order, cur)
 			nameCount = map[string]int{}
 			continue
+		case "pkginit":
+			name, ex := splitName(rest)
+			e, err := parseExpr(ex)
+			if err != nil {
+				return fmt.Errorf("%s: pkginit: %v", path, err)
+			}
+			cs.PkgInits = append(cs.PkgInits, &PkgInit{Pkg: pkgPath, Name: name, Src: ex, Expr: e, File: path})
+			cur = nil
+			continue
 		case "ghost":
 			// ghost var name type [= init]
 			if len(f) < 4 || f[1] != "var" {
@@ -336,7 +354,7 @@ func (cs *ContractSet) loadFile(path string, pkgPath string) error {
 				return err
 			}
 			cur.Clauses = append(cur.Clauses, cl)
-		case "let", "aux":
+		case "let", "aux", "plet":
 			i := strings.Index(rest, ":=")
 			if i < 0 {
 				return fmt.Errorf("%s: bad let %q", path, ln)
@@ -345,7 +363,11 @@ func (cs *ContractSet) loadFile(path string, pkgPath string) error {
 			if err != nil {
 				return fmt.Errorf("%s: %s: %v", path, cur.Key, err)
 			}
-			cur.Clauses = append(cur.Clauses, &Clause{Kind: "let", Var: strings.TrimSpace(rest[:i]), Expr: e, Src: rest, Line: ln})
+			kind := "let"
+			if head == "plet" {
+				kind = "plet" // evaluated in the post-state of each return path
+			}
+			cur.Clauses = append(cur.Clauses, &Clause{Kind: kind, Var: strings.TrimSpace(rest[:i]), Expr: e, Src: rest, Line: ln})
 		case "modifies":
 			cl := &Clause{Kind: "modifies", Src: rest, Line: ln}
 			for _, p := range splitTop(rest, ',') {
